@@ -47,6 +47,35 @@ def short(defpath):
 # optional let-substitution: {local name: THIR init expr} for immutable single-assignment `let x = <simple expr>`
 SUBST = {}
 _subst_guard = set()
+# accessor inlining (opt-in per rule): callee def path -> (parameter names, body expression). A call to such a function is described as
+# its body with the arguments put in place of the parameters, so `self.raised()` reads as the load it performs.
+INLINE = {}
+_inline_guard = set()
+
+
+def accessors(facts, prefix, max_nodes=14):
+    """single-expression, non-async functions whose def path starts with `prefix`: candidates for INLINE"""
+    out = {}
+    for f in facts.fns_matching("^" + prefix.replace("<", r"\<").replace(">", r"\>")):
+        th = getattr(f, "thir", None)
+        if not th or f.kind not in ("method", "fn") or getattr(f, "asyncness", False):
+            continue
+        body = thir.peel(thir.root(f))
+        if not isinstance(body, dict) or body.get("k") not in ("call", "field", "bin", "un", "logic"):
+            continue
+        nodes = [n for n in thir.walk(body) if isinstance(n, dict)]
+        if len(nodes) > max_nodes or any(n.get("k") in ("closure", "match", "if", "block", "loop", "assign") for n in nodes):
+            continue
+        params = []
+        for pr in th.get("params", []):
+            pat = pr.get("pat") or {}
+            if pat.get("k") != "bind" or "sub" in pat:
+                params = None
+                break
+            params.append(pat["n"])
+        if params is not None:
+            out[f.def_] = (params, body)
+    return out
 
 
 def let_substitutions(root, deep=False):
@@ -98,12 +127,15 @@ def matches_as_eq(e):
 
 
 def desc(e):
+    global SUBST
     e0 = e
     while isinstance(e, dict) and e.get("k") in ("ref", "deref", "coerce", "cast", "rawref"):
         e = e["e"]
     if not isinstance(e, dict):
         return "?"
     k = e.get("k")
+    if k == "described":
+        return e["d"]
     if k == "var":
         n = e["n"]
         if n in SUBST and n not in _subst_guard:
@@ -120,6 +152,21 @@ def desc(e):
     if k == "call":
         f = thir.peel(e["fn"])
         name = short(f.get("def")) if isinstance(f, dict) and f.get("k") == "fn" else "?"
+        if INLINE and isinstance(f, dict) and f.get("k") == "fn":
+            key = thir.strip_generics(f.get("def") or "") if hasattr(thir, "strip_generics") else (f.get("def") or "")
+            hit = INLINE.get(f.get("def")) or INLINE.get(key)
+            if hit is not None and key not in _inline_guard and len(hit[0]) == len(e["a"]):
+                saved = SUBST
+                # arguments are described in the caller's scope first, then stand in for the parameters
+                SUBST = dict(saved)
+                for pn, an in zip(hit[0], e["a"]):
+                    SUBST[pn] = {"k": "described", "d": desc(an)}
+                _inline_guard.add(key)
+                try:
+                    return desc(hit[1])
+                finally:
+                    _inline_guard.discard(key)
+                    SUBST = saved
         if name in ("Deref::deref", "DerefMut::deref_mut") and len(e["a"]) == 1:
             return desc(e["a"][0])  # auto-deref is transparent for naming purposes
         return "%s(%s)" % (name, ", ".join(desc(a) for a in e["a"]))
